@@ -184,13 +184,13 @@ class Ctx:
             raise Machinery("vacuity: actions never taken in %s/%s: %s" % (module, cfg, r.coverage_zero))
         return r
 
-    def validate_traces(self, module, cfg, trace_path, name="trace.ndjson", timeout=900, heap="6g"):
+    def validate_traces(self, module, cfg, trace_path, name="trace.ndjson", timeout=900, heap="6g", stack=None):
         """Validate a concatenated NDJSON trace against a trace spec. Returns (ok, info).
         The trace spec reads `name` from its working directory."""
         dst = os.path.join(self.specdir, name)
         if os.path.abspath(trace_path) != dst:
             shutil.copyfile(trace_path, dst)
-        r = self.tlc(module, cfg, workers=1, timeout=timeout, heap=heap, count=False)
+        r = self.tlc(module, cfg, workers=1, timeout=timeout, heap=heap, count=False, stack=stack)
         self.cov["trace_states"] += r.distinct
         if r.rc == 0:
             return True, r
@@ -226,7 +226,7 @@ class Ctx:
             if ok:
                 accepted += len(traces)
                 break
-            m = re.search(r"TRACE_REJECTED_AT_LINE\D+(\d+)", r.rejected or "")
+            m = re.search(r"TRACE_REJECTED_AT_LINE\D+?(\d+)", r.out, re.S) if r.rejected else None
             if not m:
                 # invariant violated: TLC reports a state, not a line; find l in the error trace
                 mm = re.findall(r"/\\ l = (\d+)", r.out)
@@ -257,6 +257,10 @@ class Ctx:
             at = line_no - n
             info = {"rejected_at_event": at, "event": ev[at - 1] if 0 < at <= len(ev) else None,
                     "violated_invariant": r1.violated, "trace": ev if len(ev) <= 400 else ev[:max(1, at)][-400:]}
+            if r1.violated and r1.violated.startswith("Drift"):
+                self.drift.append({"key": "trace/" + r1.violated, "what": "conformance invariant violated", "case": info["event"]})
+                traces = traces[idx + 1:]
+                continue
             k = keyfn(info) if keyfn else key
             self.report(k, (what or ("%s rejected a recorded execution" % module)) +
                         " (event %d: %s%s)" % (at, json.dumps(info["event"])[:300],
